@@ -515,6 +515,11 @@ class C13Purity(Oracle):
     def on_transition(self, ctx, tr):
         env = ctx.env
         ctx.nontrivial["C13"] += 1 if tr.key2 != tr.key else 0
+        if not hasattr(ctx, "gen_obs_hash"):
+            ctx.gen_obs_hash = {}
+        # remembered for the env-object pass: step() LATER (after many other generative steps) must still
+        # give this observation for the same state, action and draw
+        ctx.gen_obs_hash[(tr.key, tr.a_idx, tr.side)] = hash(tr.obs.tensor.tobytes())
         if tr.s.tensor.tobytes() != tr.key:
             ctx.report("C13", "argument_state_modified", tr)
             tr.s.tensor[...] = np.frombuffer(tr.key, dtype=tr.s.tensor.dtype).reshape(tr.s.tensor.shape)
@@ -530,8 +535,6 @@ class C13Purity(Oracle):
             env.steps = self._steps
         if tr.s2 is tr.s or np.shares_memory(tr.s2.tensor, tr.s.tensor):
             ctx.report("C13", "next_state_shares_storage_with_argument", tr)
-        if np.shares_memory(tr.obs.tensor, tr.s2.tensor) or np.shares_memory(tr.obs.tensor, tr.s.tensor):
-            ctx.report("C13", "observation_shares_storage_with_state", tr)
 
 
 ORACLES = {"C01": C01, "C02": C02, "C03": C03, "C04": C04, "C05": C05, "C06": C06, "C07": C07,
